@@ -128,6 +128,17 @@ def run_case(ctx, case_seed, i, max_k, max_assignments):
         kk = next((k for m, k in semantic.REJECTION_KINDS if m in (rejected.message or '')), None)
         if kk and rejected.kind == 'diagnostic':
           key = 'C08/elimination-after-injection/%s' % kk
+      if key is None and verdict == 'rows_differ' and any(v is None for r in (b.rows or []) + (o.rows or []) for v in r):
+        # recorded mechanism: null == null holds only when the comparison is a tautology after injection;
+        # guard: with injection off for every single-rule predicate the two plans agree
+        pb = semantic.with_noinject_everywhere(prog)
+        pv = semantic.with_noinject_everywhere(variant)
+        tb, _ = printer.program_text(pb)
+        tv, _ = printer.program_text(pv)
+        b2, o2 = pipeline.run(tb, p), pipeline.run(tv, p)
+        v2, _ = c07.judge(prog, p, b2, o2, ev)
+        if v2 in ('equal', 'equal_via_reference'):
+          key = 'C08/null-equality-under-injection'
       ctx.violation(key, 'annotations %s change the result of %s: %s' % ([(a, q) for a, q in zip(asg, inter) if a], p, detail),
                     dict(info, program=text, variant=vtext, predicate=p, base_outcome=b.brief(), variant_outcome=o.brief()))
 
